@@ -95,7 +95,8 @@ def canon_impl(lines):
         l = re.sub(r" tc=\d+$", "", l)
         if prev_announce and l.startswith("B gate=write arg="):
             l = re.sub(r"arg=\d+", "arg=ann", l, count=1)
-        prev_announce = l.startswith("B gate=announce")
+        if l.startswith("B "):          # the back-end's previous gate (appends / clock ops may come in between)
+            prev_announce = l.startswith("B gate=announce")
         res.append(l)
     return res
 
@@ -581,6 +582,12 @@ def gen_async(rng, cid, heavy=False):
 
 def drop_cases():
     cs = []
+    # the fit test at its boundary: after 999 x 4000 + 3999 bytes exactly 1 byte is left; a 1-byte record
+    # (len == avail) must force a hand-over and be written; likewise a 4000-byte record into 4000 left
+    cs.append(vlib.Case("fit_exact_1", "async threads=2 roll=1000000000 flush=3 now=1000",
+                        ["B", "B", "A 0 999 4000", "A 1 1 3999", "A 0 1 1", "A 1 3 2", "S"] + ["B"] * 8 + ["J"], "fit-boundary"))
+    cs.append(vlib.Case("fit_exact_4000", "async threads=1 roll=1000000000 flush=3 now=1000",
+                        ["B", "B", "A 0 1000 4000", "A 0 2 17", "B", "B", "B", "B", "A 0 1 9", "S"] + ["B"] * 8 + ["J"], "fit-boundary"))
     # exactly at the valve: 25 queued + current = 26 > 25 ; and 24 + current = 25 (no drop)
     for name, n in (("drop26", FULL * 25 + 1), ("nodrop25", FULL * 24 + 1), ("drop30", FULL * 29 + 7)):
         cs.append(vlib.Case(name, "async threads=2 roll=9000000 flush=3 now=1000",
@@ -604,6 +611,14 @@ def free_cases(rng, tier):
 
 
 # ------------------------------------------------------------------------------------ running
+def crash_summary(se):
+    """The informative line(s) of a crashed driver's stderr: sanitizer error + summary, failed assertion,
+    the runaway guard; else the tail."""
+    keep = [l.strip() for l in se.splitlines()
+            if re.search(r"ERROR: \w+Sanitizer|SUMMARY: |Assertion .* failed|RUNAWAY|runtime error:", l)]
+    return " | ".join(keep[:4])[:900] if keep else se[-600:]
+
+
 def run_cases(exe, cases, timeout, args=(), pre=(), jobs=8, max_crashes=2):
     """Like vlib.run_batch_parallel but gives up on a chunk after max_crashes crashes/timeouts (a hanging
     mutant must not cost timeout x cases)."""
@@ -625,7 +640,7 @@ def run_cases(exe, cases, timeout, args=(), pre=(), jobs=8, max_crashes=2):
             if idx is None:
                 break
             x = todo[idx]
-            c[x.cid] = (rc, se[-1500:], partial[1] if partial and partial[0] == x.cid else [])
+            c[x.cid] = (rc, crash_summary(se), partial[1] if partial and partial[0] == x.cid else [])
             todo = todo[idx + 1:]
         return o, c
 
